@@ -26,7 +26,7 @@ LEVEL = "exploration"
 CASE_TIMEOUT = 2400
 RULE = ("candidates: all 16 allow-flag combinations x gaussian reduction on/off x season/weekday maps (default, shifted seasons, one-season map, "
         "3-day weekend, no weekend) x datasets (full year, starved season, starved weekends, half year); routing: every exact-cover split string x "
-        "maps x every date of 2020 and 2021; selection: real fits with weekday/season regimes.  distinct_nontrivial = distinct (flags, gaussian, map, "
+        "pairs of maps (models of two different maps are built alternately first, some through a JSON round trip, and used afterwards) x every date of 2020 and 2021; selection: real fits with weekday/season regimes.  distinct_nontrivial = distinct (flags, gaussian, map, "
         "dataset class) candidate sets with more than the unsplit model + distinct (split string, map) routed models with >= 2 components + distinct fits.")
 ASSUMPTIONS = ["a split component '<fw|wd|we>-<seasons>' owns the cells (season, day type) it names; fw = both day types",
                "a single-season component needs that season's allow flag; any wd/we component needs allow_separate_weekday_weekend",
